@@ -17,7 +17,8 @@
 (***************************************************************************)
 EXTENDS Obs
 
-IsH2(o) == o.cfg.carrier \in {"h2", "h2prior"}
+\* (HTTP/2 by ALPN or prior knowledge - or reached by an h2c upgrade of an HTTP/1.1 connection)
+IsH2(o) == o.cfg.carrier \in {"h2", "h2prior"} \/ \E a \in DOMAIN o.reqs : Req(o, a).known /\ Req(o, a).ver = "2"
 ExpLen(o, a) == IF SuppressBody(Req(o, a).method, App(o, a).status) THEN 0 ELSE App(o, a).called
 
 PInit == [late |-> {}]     \* requests whose head arrived after the trigger
@@ -36,7 +37,8 @@ Clauses(o, ev, o2, p) ==
                 Idle == ~Busy(o) /\ \A a \in DOMAIN o.apps : App(o, a).done # "" \/ Wire(o, a).ends > 0
                 Refused(a) == Wire(o, a).rst > 0 \/ o.goaway > 0 \/ o.closedAt >= 0
                 OnlyEnd(a) == Cut(a) /\ IsH2(o) /\ Wire(o, a).got = ExpLen(o, a)
-            IN (IF \E a \in DOMAIN o.apps : Cut(a) /\ ~OnlyEnd(a) THEN <<F("cut-short", o.cfg.carrier)>> ELSE <<>>)
+            IN (IF \E a \in DOMAIN o.apps : Cut(a) /\ ~OnlyEnd(a)
+                THEN <<F("cut-short", IF IsH2(o) /\ o.cfg.carrier = "h1" THEN "h2c" ELSE o.cfg.carrier)>> ELSE <<>>)
             \o (IF \E a \in DOMAIN o.apps : OnlyEnd(a) THEN <<F("cut-short", "h2-end-stream-not-sent")>> ELSE <<>>)
             \o (IF Idle /\ o.closedAt < 0 /\ ~o.gone /\ ~o.reset /\ ~o.tfail /\ ~ParkedPipeline(o) /\ ~UnreadLeft(o)
                    /\ ~(\E a \in DOMAIN o.apps : App(o, a).kind = "websocket" /\ App(o, a).disc = 0)
